@@ -182,3 +182,20 @@ theorem wellSpaced_layout (f : Nat → Bytes) (ls : List (Rule × Bytes)) (tail 
       show startsWithBreak (f (i + 1) ++ y.2 ++ Piece.src (layoutFrom f (i + 1 + 1) ys ++ tail)) = true
       rw [List.append_assoc]
       exact startsWithBreak_spaces _ _ (hsp _) (hne _ (by omega))
+
+/-- the lexemes `ls` written with the separator `f i` in front of the `i`-th one -/
+def spacedText (f : Nat → Bytes) (ls : List (Rule × Bytes)) : Bytes := Piece.src (layoutFrom f 0 ls)
+
+/-- a family of separators: whitespace only, non-empty between two lexemes (the first may be empty) -/
+def Separators (f : Nat → Bytes) : Prop := (∀ i, isSpaces (f i) = true) ∧ ∀ i, 0 < i → f i ≠ []
+
+theorem wellSpaced_spacedText (f : Nat → Bytes) (ls : List (Rule × Bytes)) (w : Bytes)
+    (hl : ∀ x ∈ ls, Lexeme x.1 x.2) (hf : Separators f) (hw : isSpaces w = true) :
+    WellSpaced (layoutFrom f 0 ls ++ [semiPiece w]) := by
+  refine wellSpaced_layout f ls [semiPiece w] hl hf.1 ⟨hw, lexeme_semi, rfl, trivial⟩ ?_ 0 hf.2
+  cases w with
+  | nil => rfl
+  | cons c t =>
+    simp only [isSpaces, List.all_cons, Bool.and_eq_true] at hw
+    exact space_isBreak c hw.1
+
